@@ -100,6 +100,13 @@ Definition close (x : b64) (num den abs16 : Z) : bool :=
   | None => false
   end.
 
+(** -1e-12 <= x <= 1 + 1e-12: a probability, whatever else is wrong *)
+Definition in_unit (x : b64) : bool :=
+  match q_of_b64 x with
+  | Some (pn, pd) => (- pd <=? pn * 10 ^ 12) && (pn * 10 ^ 12 <=? pd * (10 ^ 12 + 1))
+  | None => false
+  end.
+
 (** absolute slack in units of 1e-16 *)
 Definition slack_base (N : Z) : Z := if N <=? 20 then 0 else 1000.
 Definition slack_compl (N : Z) : Z := if N <=? 20 then 4 else 1000.
@@ -157,6 +164,7 @@ Definition prop_ok_u (c : ucase) : bool :=
       negb ((n1 =? 0) || (n2 =? 0)) && negb (all_equal (x1 ++ x2))
       && (o1 =? n1) && (o2 =? n2) && (ae =? alt_code (u_alt c))
       && same_bits U (U_of_twoU (twoU_pairs x1 x2))
+      && in_unit P
       && (let t := pool_T x1 x2 in
           let twoU := twoU_pairs x1 x2 in
           if exact_regime t n1 n2 then
@@ -241,12 +249,19 @@ Definition dres_matches (N : Z) (d : dres) (bitexact : bool) (o : fout) : bool :
 Definition corr_ok_d (c : dcase) : bool :=
   let t := d_T c in
   let bitexact := has_ties t && (d_n1 c + d_n2 c <=? 20) in
-  if has_ties t && (model_budget <? vec_budget t) then true
+  (* the model's recursion is evaluated three times per query *)
+  if has_ties t && (10 * model_budget <? vec_budget t * Z.of_nat (length (d_q c))) then true
   else
     forallb (fun '(q, oc, op) =>
                dres_matches (d_n1 c + d_n2 c) (cdf (d_n1 c) (d_n2 c) t q) bitexact oc
                && dres_matches (d_n1 c + d_n2 c) (pmf (d_n1 c) (d_n2 c) t q) bitexact op)
             (d_q c).
+
+(** for large tie vectors the histogram of the fast evaluator is computed once per case *)
+Definition hist_le (h : list Z) (u : Z) : Z :=
+  if u <? 0 then 0 else zsum (firstn (Z.to_nat (u + 1)) h).
+Definition hist_eq (h : list Z) (u : Z) : Z :=
+  if u <? 0 then 0 else nth (Z.to_nat u) h 0.
 
 Definition prop_ok_d (c : dcase) : bool :=
   let n1 := d_n1 c in let n2 := d_n2 c in
@@ -256,14 +271,19 @@ Definition prop_ok_d (c : dcase) : bool :=
   | _ =>
       let tot := total t n1 in
       let step := if has_ties t then 2 else 4 in     (* support: half-integers with ties, integers without *)
+      let small := vec_budget t <=? enum_budget in
+      let h := if small then [] else hist (Z.to_nat (2 * (n1 * n2) + 2)) t n1 in
+      let le u := if small then count_le t n1 u else hist_le h u in
+      let eq u := if small then count_eq t n1 u else hist_eq h u in
       forallb (fun '(q, oc, op) =>
                  match oc, op with
                  | FNum xc, FNum xp =>
+                     in_unit xc && in_unit xp &&
                      (if q <? 0 then close xc 0 1 0
                       else if 4 * (n1 * n2) <=? q then close xc 1 1 0
-                      else close xc (spec_le t n1 (q / 2)) tot (slack_base (n1 + n2)))
+                      else close xc (le (q / 2)) tot (slack_base (n1 + n2)))
                      && (if q mod step =? 0 then
-                           (if q <? 0 then close xp 0 1 0 else close xp (spec_eq t n1 (q / 2)) tot (slack_base (n1 + n2)))
+                           (if q <? 0 then close xp 0 1 0 else close xp (eq (q / 2)) tot (slack_base (n1 + n2)))
                          else true)
                  | _, _ => false
                  end)
